@@ -861,6 +861,11 @@ fn meaning_cases() -> Vec<(&'static str, &'static str, &'static str)> {
         ("(mod (X) (defun k () (q . ((1) 2))) (c X (k)))", "(5)", "(5 (1) 2)"),
         ("(mod (X) (defun kk () (q . ((1) (2) (1 1) 3))) (c X (kk)))", "(5)", "(5 (1) (2) (1 1) 3)"),
         ("(mod (X) (q . ((1) 2)))", "(5)", "((1) 2)"),
+        // a let inside an inline function: the hoisted helper must see the inline's parameters, captures included
+        ("(mod (X Y) (defun-inline F (A (@ Z (B C))) (let ((q (+ A 1))) (list q Z B C))) (F X (list Y 9)))", "(1 2)", "(2 (2 9) 2 9)"),
+        ("(mod (X Y) (defun-inline F ((@ W (A . R)) K) (let* ((q (+ A K)) (s (* q 2))) (list q s W R))) (F (list X Y) 5))", "(1 2)", "(6 12 (1 2) (2))"),
+        ("(mod (X Y) (defun-inline F (A (B C)) (let ((q (+ A 1))) (list q B C))) (F X (list Y 9)))", "(1 2)", "(2 2 9)"),
+        ("(mod (X Y) (defun F (A (@ Z (B C))) (let ((q (+ A 1))) (list q Z B C))) (F X (list Y 9)))", "(1 2)", "(2 (2 9) 2 9)"),
     ]
 }
 
@@ -1267,14 +1272,14 @@ pub fn search(name: &str, seed: u64) -> Value {
             }
             nf("11 programs (incl. nested destructuring in inline parameters) compiled by the classic compiler (plain and optimised) return the hand-computed values (which the cl21 build also returns, see source_meaning)")
         }
-        "source_meaning" => {
+        "source_meaning" | "create_let_env_expression" | "cons_bodyform" | "create_name_lookup_" | "finalize_env_" => {
             for (b, at, ex) in meaning_cases() { for d in [Some("*standard-cl-21*"), Some("*standard-cl-23*")] {
                 if skipped(&json!({"program": b, "dialect": d, "args": at})) { continue; }
                 if let Some(mut v) = chk_meaning(b, d, at, ex) { v["input"] = json!({"program": b, "dialect": d, "args": at}); return v; }
             } }
-            nf("28 programs (functions, inlines, parameters drawn from a &rest tail with and without a rest parameter, quoted data containing (1), quoted atoms spelled like parameters, nested destructuring in inline parameters, nested mod in main / in defun, destructuring, @ capture, rest arguments, let/let*, recursion, macro, constants) x cl21/cl23 return the hand-computed values")
+            nf("32 programs (functions, inlines, let inside inline functions with @ captures, parameters drawn from a &rest tail with and without a rest parameter, quoted data containing (1), quoted atoms spelled like parameters, nested destructuring in inline parameters, nested mod in main / in defun, destructuring, @ capture, rest arguments, let/let*, recursion, macro, constants) x cl21/cl23 return the hand-computed values")
         }
-        "opt_levels" => {
+        "opt_levels" | "null_optimization" | "null_optimization_of_code" | "post_codegen_function_optimize" | "post_codegen_output_optimize" | "atomize" => {
             let progs: Vec<(&str, Vec<&str>)> = vec![
                 ("(mod (X) (defun F (A . REST) (c A REST)) (defun G (X) (F (* X 17) &rest (list (* X 17) 2))) (G X))", vec!["(100)", "(0)"]),
                 ("(mod (X Y) (defun sq (A) (* A A)) (if (> (sq X) Y) (+ (sq X) (sq X) Y) (- (sq X) Y)))", vec!["(3 4)", "(1 5)"]),
@@ -1346,7 +1351,7 @@ pub fn search(name: &str, seed: u64) -> Value {
             }
             nf("library entry and tool path emit identical bytes for 7 programs (incl. let* chains and quoted apply, which the classic post-optimiser rewrites) x cl21/cl22/cl23 x optimize on/off, and for 4 search-path lists (incl. a repeated directory) x cl21/cl23")
         }
-        "include_files" | "process_include" => {
+        "include_files" | "process_include" | "process_pp_form" | "process_embed" => {
             let mut n = 0;
             for k in INCLUDE_KINDS { for m in INCLUDE_MODES {
                 let input = json!({"include_file": k, "mode": m});
@@ -1360,7 +1365,7 @@ pub fn search(name: &str, seed: u64) -> Value {
             let rounds = if thorough() { 40 } else { 6 };
             chk_atomic_write(rounds).unwrap_or_else(|| nf(&format!("{} rounds of 8 concurrent writers x 3 writes and 2 polling readers on one output path: every read is a complete payload, every writer succeeds (stress run, bounded)", rounds)))
         }
-        "macro_ext" | "try_eval" => {
+        "macro_ext" | "try_eval" | "required_arg" => {
             let names = ["string?", "number?", "symbol?", "string->symbol", "symbol->string", "string->number", "number->string", "string-append", "string-length", "substring"];
             let kinds = ["\"hello\"", "3", "sym", "(q 1 2)", "1"];
             let mut n = 0u64;
@@ -1462,7 +1467,7 @@ pub fn search(name: &str, seed: u64) -> Value {
             } }
             nf("stepper agrees with clvmr run_program on the enumerated programs x 4 environments")
         }
-        "atom_from_stream" | "sexp_from_stream" | "int_from_bytes" | "get_u32" | "read" | "atom_size_blob" => {
+        "atom_from_stream" | "sexp_from_stream" | "int_from_bytes" | "get_u32" | "read" | "atom_size_blob" | "next" | "write" | "re_allocate" | "sexp_to_stream" => {
             for d in deser_inputs() { if let Some(v) = chk_deser(&d) { return v; } }
             for hex in ["ff0102", "ffff010203", "ff01ff0203", "ffff0102ff0304", "ff83616263ff8180ff80ff0180", "ff80ff8080"] { if let Some(v) = chk_ser_tree(&hexv(hex)) { return v; } }
             for n in [0usize, 1, 2, 0x3f, 0x40, 0x41, 0x1fff, 0x2000, 0x2001, 0xfffff, 0x100000, 0x100001] { if let Some(v) = chk_ser_len(n) { return v; } }
